@@ -205,25 +205,14 @@ func arrayTrimSuffix(suffix rel.Value, subject rel.Array) (rel.Value, error) {
 // Case: subject=[1,2,3,4], sub=[2,3], return 1
 // Case: subject=[1,2,3,4], sub=[2,5], return -1
 func search(subject, sub []rel.Value) int {
-	subjectOffset, subOffset := 0, 0
-
-	for ; subjectOffset < len(subject); subjectOffset++ {
-		if subOffset < len(sub) && subject[subjectOffset].Equal(sub[subOffset]) {
-			subOffset++
-		} else {
-			if subOffset > 0 && subOffset < len(sub) {
-				subOffset = 0
-				subjectOffset--
-			}
+	for i := 0; i+len(sub) <= len(subject); i++ {
+		j := 0
+		for j < len(sub) && subject[i+j].Equal(sub[j]) {
+			j++
 		}
-		if subOffset == len(sub) {
-			break
+		if j == len(sub) {
+			return i
 		}
-	}
-
-	if subjectOffset < len(subject) {
-		// see len(sub) > 1
-		return (subjectOffset + 1) - len(sub)
 	}
 	return -1
 }
